@@ -19,7 +19,15 @@ TRUSTED_BASE = [
     "Lean 4.33.0 kernel (thorough tier: leanchecker replay of the property modules)",
     "axioms: propext, Classical.choice, Quot.sound only (audited per theorem with #print axioms); no native_decide, no sorry",
     "Mathlib v4.33.0 definitions of ℝ, ℂ, Real.sin/cos/exp/arcsin/sqrt/rpow, Finset sums, Lagrange.basis",
-    "py2lean translator (vk/translate.py): validated each run by executing the generated code in Float against the Python it came from",
+    "py2lean translator (vk/translate.py): validated each run by executing the generated code in Float against the Python it came from; "
+    "TRANSLATED from /repo each run (Gen/*.lean): the 6 Numba kernels + helpers + reducer, the 6 CUDA kernels + host wrappers, the whole "
+    "SpectrumResult.__getattr__ table, kaiser_alpha/kaiser_rov/round_half_up/find_Jdes_binary_search (its scheduler call is an abstract "
+    "count function), the walks of ltf_plan/new_ltf_plan/vectorized_ltf_plan (NumPy whole-array code: np.logspace/np.searchsorted are "
+    "stated contracts), the start positions of ltf_plan and the closed-form shift/D/O of the other two, lagrange_taps (one shift), the "
+    "IIR cascade and coefficient design of noise.py, compute_single_bin's segmentation and omega, SpectrumAnalyzer.__init__'s buffer "
+    "operations; each proved EQUAL to the hand model the property theorems are about (Props/*Gen.lean). HAND-MODELLED and tied by "
+    "correspondence only: plan()/band/force glue, _lpsd_core's per-bin loop and caches, timeshift's two paths, generator classes, "
+    "fftnoise/band-limited noise, get_rms/get_measurement/to_dataframe, MISO/SISO solvers, polynomial_detrend",
     "correspondence harness (vk/props/*.py) and Lean driver (lean/Driver.lean)",
     "modelled, not verified: CPython/Numba/LLVM/NVVM semantics, IEEE rounding and fastmath, GPU execution (CUDA simulator only), "
     "LAPACK QR / np.polyfit / np.linalg.solve,pinv / sympy.solve / scipy.signal.lfilter / np.fft / np.interp / numpy Generator (stated contracts)",
